@@ -30,6 +30,7 @@ type histOpts struct {
 	retain       bool // statement functions retain their parameters (C18)
 	sizes        bool // messages with body sizes around the 4 KiB granule and the limit
 	tails        bool // grammar-external surplus bytes inside messages (C03)
+	prefix       string // program-key prefix (distinct per connection in multi-connection cases)
 }
 
 type histGen struct {
@@ -53,7 +54,7 @@ func (g *histGen) oids() []uint32 {
 
 func (g *histGen) newKey() string {
 	g.nq++
-	return fmt.Sprintf("q%d", g.nq)
+	return fmt.Sprintf("%sq%d", g.o.prefix, g.nq)
 }
 
 func (g *histGen) err() *ErrSpec {
@@ -572,6 +573,10 @@ func genHistory(r *Rand, c *Case, o histOpts) {
 			steps = append(steps, Step{Msgs: rest[i : i+n]})
 			i += n
 		}
+	}
+	if o.prefix != "" {
+		c.Conns = append(c.Conns, ConnCase{Steps: steps, Cuts: genCuts(r)})
+		return
 	}
 	c.Conns = []ConnCase{{Steps: steps, Cuts: genCuts(r)}}
 }
